@@ -2,6 +2,7 @@ package model
 
 import (
 	"fmt"
+	"time"
 
 	"github.com/enbility/spine-go/verifrt"
 )
@@ -40,4 +41,73 @@ func VH_c19_scaled() {
 	}
 	verifrt.Observe("number", int64(*s.Number))
 	verifrt.Observe("scale", int(*s.Scale))
+}
+
+func init() {
+	verifrt.Register("VH_c19_duration", VH_c19_duration)
+	verifrt.Register("VH_c19_getvalue", VH_c19_getvalue)
+	verifrt.Register("VH_c19_relative_end", VH_c19_relative_end)
+}
+
+// C19 durations: n*100ms survives NewDurationType -> text -> GetTimeDuration exactly (integer encoding).
+func VH_c19_duration() {
+	sign := verifrt.ShardChoice("sign", 2)
+	n := verifrt.I64("n")
+	// below 3277 days (the range in which the period library keeps days, hours, minutes, seconds)
+	max := int64(3277) * 24 * 36000
+	verifrt.Assume(verifrt.All(n >= 0, n < max))
+	d := time.Duration(n) * 100 * time.Millisecond
+	if sign == 1 {
+		d = -d
+	}
+	verifrt.Scenario([]string{"positive", "negative"}[sign])
+	dt := NewDurationType(d)
+	back, err := dt.GetTimeDuration()
+	verifrt.Reach("converted")
+	verifrt.Assert("duration-text-parses", err == nil)
+	verifrt.Assert("duration-survives-the-round-trip-exactly", back == d)
+	verifrt.Observe("back", int64(back))
+}
+
+// C19: GetValue of a scaled number denotes number*10^scale (catches narrowing of the number).
+func VH_c19_getvalue() {
+	sc := verifrt.ShardChoice("scale", 5)
+	verifrt.Scenario(fmt.Sprintf("scale=-%d", sc))
+	n := verifrt.I64("number")
+	verifrt.Assume(verifrt.All(n > -(1<<53), n < (1<<53)))
+	num, scale := NumberType(n), ScaleType(-sc)
+	s := &ScaledNumberType{Number: &num, Scale: &scale}
+	g := s.GetValue()
+	verifrt.Reach("read")
+	nf := float64(n)
+	if sc == 0 {
+		verifrt.Assert("value-is-the-number-for-scale-0", g == nf)
+	} else {
+		// same sign, not larger in magnitude than the number, and at least a tenth of it per decimal place removed
+		lo, hi := nf/(vhPow10[sc]*2), nf
+		if n < 0 {
+			lo, hi = nf, nf/(vhPow10[sc]*2)
+		}
+		verifrt.Assert("value-has-the-sign-and-magnitude-of-number-times-10^scale", verifrt.All(g >= lo-1, g <= hi+1))
+	}
+	verifrt.Observe("isnan", g != g)
+}
+
+// C19: a relative end time is read back as the remaining duration, to the second (symbolic clock).
+func VH_c19_relative_end() {
+	secs := verifrt.I64("seconds")
+	verifrt.Assume(verifrt.All(secs >= 0, secs <= 1000000))
+	verifrt.Scenario("relative-end-time")
+	D := time.Duration(secs) * time.Second
+	tp := NewTimePeriodTypeWithRelativeEndTime(D)
+	got, err := tp.GetDuration()
+	verifrt.Reach("read-back")
+	verifrt.Assert("relative-end-time-is-readable", err == nil)
+	// the two clock readings taken inside the code
+	now0, now1 := verifrt.ClockReading(1), verifrt.ClockReading(2)
+	want := D - time.Duration(now1-now0)
+	diff := got - want
+	verifrt.Assert("remaining-duration-to-the-second", verifrt.All(diff <= time.Second, diff >= -time.Second))
+	verifrt.Assert("remaining-duration-is-whole-seconds", got%time.Second == 0)
+	verifrt.Observe("err", err == nil)
 }
